@@ -1,5 +1,5 @@
 (* Properties/C15.v — the client targets the spec's server, or the documented environment override. *)
-From LN Require Import Model.Emit Proofs.EmitP.
+From LN Require Import Model.Emit Proofs.EmitP Proofs.ServersP.
 
 (* exactly one server: its URL, verbatim *)
 Theorem C15_one_server : forall sp url d, servers sp = [(url, d)] -> extract_servers sp = [(lit "default", url)].
@@ -22,6 +22,32 @@ Theorem C15_env_var : forall svc, split_words svc <> [] ->
   Some (qualified_env_var svc (lit "env")) = env_var_for_strategy SSEnv svc.
 Proof. exact env_var_agrees. Qed.
 Print Assumptions C15_env_var.
+
+(* several servers whose descriptions each carry their own recognised keyword (beta / production / development /
+   sandbox, kw_of): every declared server is in the client's table under its keyword and the client selects through
+   <SERVICE>_ENV — for any number of servers *)
+Theorem C15_several_env : forall sp, (2 <= length (servers sp))%nat ->
+  (forall ud, In ud (servers sp) -> kw_of (snd ud) <> None) ->
+  NoDup (map (fun ud => kw_of (snd ud)) (servers sp)) ->
+  length (extract_servers sp) = length (servers sp) /\
+  (forall u d k, In (u, d) (servers sp) -> kw_of d = Some k -> In (k, u) (extract_servers sp)) /\
+  (forall ops schemas sec docs,
+     server_strategy_of {| h_ops := ops; h_schemas := schemas; h_servers := extract_servers sp; h_security := sec; h_docs_url := docs |} = SSEnv).
+Proof. exact several_servers_env. Qed.
+Print Assumptions C15_several_env.
+
+Theorem C15_several_env_nonvacuous :
+  let l := [(lit "https://{region}.example.com/v1", Some (lit "Production server")); (lit "https://{region}.example.com/v1", Some (lit "the Sandbox"))] in
+  (forall ud, In ud l -> kw_of (snd ud) <> None) /\ NoDup (map (fun ud => kw_of (snd ud)) l) /\
+  extract_servers {| components := []; paths := []; servers := l; security := []; schemes := []; ext_docs := None |}
+  = [(lit "production", lit "https://{region}.example.com/v1"); (lit "sandbox", lit "https://{region}.example.com/v1")].
+Proof.
+  cbv zeta. split; [|split].
+  - intros ud [<-|[<-|[]]]; vm_compute; discriminate.
+  - vm_compute. repeat constructor; cbn; intros H; repeat (destruct H as [H|H]; [discriminate H|]); exact H.
+  - vm_compute. reflexivity.
+Qed.
+Print Assumptions C15_several_env_nonvacuous.
 
 (* several servers are only selected through <SERVICE>_ENV when each description carries a distinct recognised
    keyword; otherwise the table is empty or collapses (open finding): refutation of the unconditional statement *)
